@@ -203,13 +203,13 @@ func getHashField(b *opBuild, field string) string {
 }
 
 func c07Labels(typ string, b *opBuild) []string {
-	l := []string{"cfg-op-size-minus-1", "cfg-hash-length-minus-1", "cfg-hash-alg-not-listed", "req-type-unknown", "req-type-missing", "req-hash-wrong-alg", "req-hash-too-long"}
+	l := []string{"cfg-op-size-minus-1", "cfg-hash-length-minus-1", "cfg-hash-alg-not-listed", "req-type-unknown", "req-type-missing", "req-hash-wrong-alg", "req-hash-too-long", "req-hash-malformed"}
 	if typ != "deactivate" {
 		l = append(l, "cfg-delta-size-minus-1", "cfg-patch-action-disabled", "cfg-patches-empty", "req-delta-missing", "req-delta-empty-patches", "req-delta-invalid-patch", "req-delta-oversize-by-one")
 	}
 	if typ != "create" {
 		l = append(l, "cfg-sig-alg-not-allowed", "cfg-key-curve-not-allowed", "req-alg-missing", "req-alg-empty", "req-extra-header", "req-key-missing-member",
-			"req-reveal-other-key", "req-missing-did-suffix", "req-missing-signed-data", "req-nonce-undecodable")
+			"req-reveal-other-key", "req-missing-did-suffix", "req-missing-signed-data", "req-nonce-undecodable", "req-key-rsa", "req-key-unknown-kty")
 		if b.SignKey.Nonce != "" {
 			l = append(l, "cfg-nonce-size-off-by-one")
 		}
@@ -325,6 +325,42 @@ func TestC07_ParserAcceptsExactly(t *testing.T) {
 			// (all hashes of one algorithm have one length), so lengthen this one: digest with an extra byte and matching length field
 			raw2 := refMultihashBytes(alg, append(refDigest(alg, []byte(f)), 0))
 			setHashField(m, f, b64(raw2), alg)
+		case "req-hash-malformed":
+			// starts with the configured code but is not a well-formed multihash
+			f := rapid.SampledFrom(hashFields(typ)).Draw(t, "hashField")
+			detail = f
+			rawH := refMultihashBytes(alg, refDigest(alg, []byte(f)))
+			var bad string
+			switch rapid.IntRange(0, 4).Draw(t, "malformedHash") {
+			case 0:
+				bad = b64(rawH[:len(rawH)-rapid.IntRange(1, len(rawH)-2).Draw(t, "cut")])
+			case 1:
+				bad = b64(rawH[:1])
+			case 2:
+				bad = b64(rawH[:2])
+			case 3:
+				r2 := append([]byte{}, rawH...)
+				r2[1]--
+				bad = b64(r2)
+			default:
+				bad = b64(rawH) + "="
+			}
+			setHashField(m, f, bad, alg)
+		case "req-key-rsa":
+			// a complete RSA JWK as signing key: no curve, so it can never be in the allowed key curves
+			rsa := map[string]interface{}{"kty": "RSA", "crv": "", "x": "", "y": "", "n": b64(make([]byte, 256)), "e": "AQAB"}
+			m.Signed[keyMember(typ)] = rsa
+			m.Reveal = refHash(rsa, alg)
+			m.sign()
+			m.assemble()
+			q.KeyAlgorithms = allCurves
+		case "req-key-unknown-kty":
+			jwk := m.Signed[keyMember(typ)].(map[string]interface{})
+			jwk["crv"] = rapid.SampledFrom([]string{"P-224", "X25519", "p-256", "Ed448", "secp256r1"}).Draw(t, "otherCrv")
+			m.Reveal = refHash(jwk, alg)
+			m.sign()
+			m.assemble()
+			q.KeyAlgorithms = allCurves
 		case "req-delta-missing":
 			m.Delta = nil
 			m.assemble()
